@@ -230,6 +230,21 @@ Fixpoint run (s : st) (ops : list op) : res (st * list out) :=
       end
   end.
 
+(* the same history, keeping what was returned before a call panicked: outputs so far, the error (if any),
+   and the state in which the failing call was made *)
+Fixpoint run_upto (s : st) (ops : list op) : list out * option err * st :=
+  match ops with
+  | [] => ([], None, s)
+  | o :: r =>
+      match step s o with
+      | Err e => ([], Some e, s)
+      | Ok (s1, x) =>
+          match run_upto s1 r with
+          | (xs, e, s2) => (x :: xs, e, s2)
+          end
+      end
+  end.
+
 (* ------------------------------------------------------------------------------------------ *)
 (* reencode_term_id: translate an id of a source database into a target dictionary / quoted     *)
 (* store through a translation cache                                                            *)
